@@ -9,6 +9,12 @@ import PynetVerif.Driver.Timer
 import PynetVerif.Driver.Cancel
 import PynetVerif.Driver.Nego
 import PynetVerif.Driver.Ctx
+import PynetVerif.Driver.Policy
+import PynetVerif.Driver.MaxAssoc
+import PynetVerif.Driver.Conform
+import PynetVerif.Driver.Path
+import PynetVerif.Driver.Qr
+import PynetVerif.Driver.Cmd
 open PynetVerif
 
 /-- Each model contributes `String → List SExp → Option SExp` (none = not my op). -/
@@ -22,7 +28,13 @@ def handlers : List (String → List SExp → Option SExp) :=
    Driver.timerOps,
    Driver.cancelOps,
    Driver.negoOps,
-   Driver.ctxOps]
+   Driver.ctxOps,
+   Driver.policyOps,
+   Driver.maxAssocOps,
+   Driver.conformOps,
+   Driver.pathOps,
+   Driver.qrOps,
+   Driver.cmdOps]
 
 def handle (e : SExp) : SExp :=
   match e with
